@@ -3,15 +3,24 @@
    values   : `-` = None, `e` = b'' , otherwise lower-case hex
    chna     : `-` = None, `c<hex>` = ChnaChunk whose AudioIDs are the consecutive 40-byte groups of <hex>
    in  : `write <closed 0|1> <force 0|1> <channels> <rate> <bits> <chna> <axml> <bext> [; op]*`
-           op = `w <val>` | `sa <val>` | `sb <val>` | `sc <chna>`
-   out : hex of the buffer | `unpackable` (struct.pack would raise)
+           op = `w <val>` (byte level: the encoded bytes of one write call)
+              | `ws <samples>` (sample level: the float64 bit patterns, 16 hex digits each, comma separated, row-major
+                 frames x channels, of one write call; `-` = a block of zero frames)
+              | `sa <val>` | `sb <val>` | `sc <chna>`
+           a history uses `w` or `ws`, not both
+   out : `H:<hex of the buffer>` if the history satisfies the hypotheses of C09_roundtrip / C09_samples_roundtrip
+           (closed) resp. C17_unclosed (unclosed), `N:<hex>` if it does not (the model is still the transliteration)
+         | `unpackable` (struct.pack would raise) | `raises` (a sample block cannot be encoded)
    in  : `read <hex|e>`
    out : `err <kind>` | `ok ff=<hex> tag=_ ch=_ rate=_ bits=_ frames=_ data=<val> chna=<chna> axml=<val> bext=<val> warns=<sorted kinds,>`
+   in  : `reads <hex|e>`  (the opened reader, then `read(len(reader))` through decode_pcm_samples + deinterleave)
+   out : as `read`, followed by ` cfg=<data offset>,<block alignment>,<data size>,<file length> pos=<buffer position afterwards>`
+         ` samples=<bit patterns of the samples, row-major, comma separated | - | raises>`
    in  : `trunc <hex>`   out: the `read` answers for every proper prefix (k = 0 .. len-1) joined by ` | `
    `bad-op` for a malformed line. -/
 import Earverif.Model.Bw64Reader
 import Earverif.Driver.Util
-open Earverif.Bw64 Earverif.Driver
+open Earverif.Bw64 Earverif.Driver Earverif.Ieee
 
 def hexDigit? (c : Char) : Option Nat :=
   if '0' ≤ c ∧ c ≤ '9' then some (c.toNat - '0'.toNat)
@@ -67,16 +76,73 @@ def showChna : Option (List ChnaEntry) → String
   | none => "-"
   | some es => "c" ++ toHex (es.map ChnaEntry.enc).flatten
 
-def parseOp? (ws : List String) : Option WOp :=
+def hexNat? (s : String) : Option Nat :=
+  if s.isEmpty then none
+  else s.toList.foldlM (fun acc c => do some (acc * 16 + (← hexDigit? c))) 0
+
+/-- `-` = no samples, else comma separated 16-digit patterns; NaN patterns are rejected (`none`) -/
+def parseSamples? (s : String) : Option (List Rat) :=
+  if s = "-" then some [] else (s.splitOn ",").mapM (fun h => if h.length = 16 then hexNat? h >>= ofBits else none)
+
+def rowsOf (ch : Nat) : Nat → List Rat → List (List Rat)
+  | 0, _ => []
+  | fuel + 1, xs => if xs.isEmpty then [] else xs.take ch :: rowsOf ch fuel (xs.drop ch)
+
+/-- a parsed client call: byte level, sample level, or a setter (which is both) -/
+inductive DOp where
+  | w (b : Bytes)
+  | ws (flat : List Rat)
+  | set (o : WOp)
+
+def parseOp? (ws : List String) : Option DOp :=
   match ws with
   | ["w", v] => do
     match ← parseVal? v with
-    | some b => some (.write b)
+    | some b => some (.w b)
     | none => none
-  | ["sa", v] => do some (.setAxml (← parseVal? v))
-  | ["sb", v] => do some (.setBext (← parseVal? v))
-  | ["sc", v] => do some (.setChna (← parseChna? v))
+  | ["ws", v] => do some (.ws (← parseSamples? v))
+  | ["sa", v] => do some (.set (.setAxml (← parseVal? v)))
+  | ["sb", v] => do some (.set (.setBext (← parseVal? v)))
+  | ["sc", v] => do some (.set (.setChna (← parseChna? v)))
   | _ => none
+
+def toWOps : List DOp → Option (List WOp)
+  | [] => some []
+  | .w b :: r => (toWOps r).map (.write b :: ·)
+  | .set o :: r => (toWOps r).map (o :: ·)
+  | .ws _ :: _ => none
+
+def setS : WOp → SOp
+  | .setChna v => .setChna v
+  | .setAxml v => .setAxml v
+  | .setBext v => .setBext v
+  | .write _ => .write []   -- not reached
+
+def toSOps (ch : Nat) : List DOp → Option (List SOp)
+  | [] => some []
+  | .ws flat :: r =>
+    if ch = 0 ∨ flat.length % ch ≠ 0 then none else (toSOps ch r).map (.write (rowsOf ch flat.length flat) :: ·)
+  | .set o :: r => (toSOps ch r).map (setS o :: ·)
+  | .w _ :: _ => none
+
+/-- the values pending at `close` and the number of data bytes (mirrors `pendChna`/`pendAxml`/`pendBext`/`dataOf`
+of Proofs/C09Layout.lean on the byte-level history) -/
+def pendOf (c : Option (List ChnaEntry)) (a b : Option Bytes) (n : Nat) :
+    List WOp → Option (List ChnaEntry) × Option Bytes × Option Bytes × Nat
+  | [] => (c, a, b, n)
+  | .write d :: r => pendOf c a b (n + d.length) r
+  | .setChna v :: r => pendOf v a b n r
+  | .setAxml v :: r => pendOf c v b n r
+  | .setBext v :: r => pendOf c a v n r
+
+/-- hypotheses of `C09_roundtrip` (closed) / `C17_unclosed` (unclosed) on a byte-level history, via the executable
+tests `Fmt.okB`, `chnaOkB`, `bytesPackable` (proved equivalent to `FmtOK`, `ChnaOK`, `BytesOK` in Props/C09.lean) -/
+def hypW (closed : Bool) (fmt : Fmt) (c0 : Option (List ChnaEntry)) (a0 b0 : Option Bytes) (ops : List WOp) : Bool :=
+  let (cF, aF, bF, n) := pendOf c0 a0 b0 0 ops
+  if closed then
+    fmt.okB && chnaOkB c0 && chnaOkB cF && bytesPackable a0 && bytesPackable aF && bytesPackable b0 && bytesPackable bF
+      && n % fmt.blockAlign == 0 && decide (n < 2 ^ 63)
+  else chnaOkB c0 && bytesPackable a0 && bytesPackable b0 && decide (n < 2 ^ 32 - 1)
 
 def showErr : Err → String
   | .struct => "struct" | .notRiff => "notRiff" | .notWave => "notWave" | .missingDs64 => "missingDs64"
@@ -101,18 +167,48 @@ def showRead (f : Bytes) : String :=
     s!"frames={p.frames} data={showBytes p.data} chna={showChna p.chna} axml={showVal p.axml} bext={showVal p.bext} " ++
     "warns=" ++ String.intercalate "," (sortStrings (w.map showWarn))
 
+def showBits (x : Rat) : String :=
+  match toBits x with
+  | some w => String.ofList ((List.range 16).reverse.map fun i => hexChar (w / 16 ^ i % 16))
+  | none => "not-a-double"
+
+def showReadS (f : Bytes) : String :=
+  match openReader f with
+  | .error _ => showRead f
+  | .ok (p, k, _) =>
+    let r := readSamples f p.fmt k k.data (p.frames : Int)
+    let smp := match r.2 with
+      | none => "raises"
+      | some rows => if rows.flatten.isEmpty then "-" else String.intercalate "," (rows.flatten.map showBits)
+    showRead f ++ s!" cfg={k.data},{k.A},{k.size},{k.fileLen} pos={r.1} samples={smp}"
+
 def answerWrite (hd : List String) (rest : List String) : String :=
   match hd with
   | [closed, force, ch, rate, bits, chna, axml, bext] =>
     match parseInts? [closed, force, ch, rate, bits], parseChna? chna, parseVal? axml, parseVal? bext,
           rest.mapM (fun s => parseOp? (words s)) with
-    | some [c, fo, ch, rate, bits], some chna, some axml, some bext, some ops =>
+    | some [c, fo, ch, rate, bits], some chna, some axml, some bext, some dops =>
       if c < 0 ∨ c > 1 ∨ fo < 0 ∨ fo > 1 ∨ ch < 0 ∨ rate < 0 ∨ bits < 0 then "bad-op" else
       let fmt : Fmt := ⟨ch.toNat, rate.toNat, bits.toNat⟩
-      if !(fmt.packable && chnaPackable chna && bytesPackable axml && bytesPackable bext
-            && ops.all WOp.packable) then "unpackable" else
-      if c = 1 then toHex (closedFile fmt chna axml bext (fo = 1) ops)
-      else toHex (unclosedFile fmt chna axml bext (fo = 1) ops)
+      match toWOps dops with
+      | some ops =>
+        if !(fmt.packable && chnaPackable chna && bytesPackable axml && bytesPackable bext
+              && ops.all WOp.packable) then "unpackable" else
+        (if hypW (c = 1) fmt chna axml bext ops then "H:" else "N:") ++
+        (if c = 1 then toHex (closedFile fmt chna axml bext (fo = 1) ops)
+         else toHex (unclosedFile fmt chna axml bext (fo = 1) ops))
+      | none =>
+        match toSOps fmt.channels dops with
+        | none => "bad-op"
+        | some sops =>
+          if !(fmt.packable && chnaPackable chna && bytesPackable axml && bytesPackable bext
+                && sops.all SOp.packable) then "unpackable" else
+          -- the sample-level hypotheses: as the byte-level ones on the encoded history (`encOps`); blocks are
+          -- well shaped by construction (`rowsOf`)
+          match encOps fmt sops, (if c = 1 then closedFileS fmt chna axml bext (fo = 1) sops
+                                  else unclosedFileS fmt chna axml bext (fo = 1) sops) with
+          | some wops, some buf => (if hypW (c = 1) fmt chna axml bext wops then "H:" else "N:") ++ toHex buf
+          | _, _ => "raises"
     | _, _, _, _, _ => "bad-op"
   | _ => "bad-op"
 
@@ -125,6 +221,11 @@ def answer (line : String) : String :=
       if !rest.isEmpty then "bad-op" else
       match parseVal? h with
       | some (some f) => showRead f
+      | _ => "bad-op"
+    | ["reads", h] =>
+      if !rest.isEmpty then "bad-op" else
+      match parseVal? h with
+      | some (some f) => showReadS f
       | _ => "bad-op"
     | ["trunc", h] =>
       if !rest.isEmpty then "bad-op" else
